@@ -839,6 +839,25 @@ static void run_iter(const char* subj, Rng& g, long nops, std::size_t block, Mak
         {
             std::size_t q = g.below(N);
             emit(fmt("%s capacity_left %zu", subj, q), fmt("num %zu", it->capacity_left(q)), iter_state(*it));
+            if (q == it->cur_iteration() && g.chance(50))
+            { // C18: what is reported as left (it is also the traits' max_node_size) is a true upper bound: one byte more
+              // than fits between the fences is refused. The request is part of the history.
+                std::size_t cl = it->capacity_left(), f2 = 2 * detail::debug_fence_size;
+                if (allocator_traits<It>::max_node_size(*it) != cl || allocator_traits<It>::max_array_size(*it) != cl)
+                    O->fail("C18 iteration_allocator: traits maxima differ from capacity_left()");
+                std::size_t req = cl >= f2 ? cl - f2 + 1 : 1;
+                char*       top0 = it->stacks_[it->cur_].top();
+                void*       p = it->try_allocate(req, 1);
+                std::string w = p ? foot(top0, it->stacks_[it->cur_].top()) : foot(nullptr, nullptr);
+                if (p)
+                {
+                    O->fail(fmt("C18 iteration_allocator: capacity_left() reported %zu bytes, a request of %zu bytes (+%zu fence bytes) succeeded", cl, req, f2));
+                    long id = next_id++;
+                    O->on_alloc(id, p, req, 1, "iteration.try_allocate(above)");
+                    ids[own_cur].push_back(id);
+                }
+                emit(fmt("%s try_alloc %zu 1", subj, req), p ? fmt("ok %zu", R->off(p)) : "null", iter_state(*it) + w);
+            }
         }
         else if (k < 93)
         { // move construct, destroy moved-from
